@@ -238,6 +238,29 @@ def cog_finite_oracle(rng, tier, reasons):
     return fails
 
 
+SEDOV_OVF = r'''
+def main(payload):
+    from exactpack.solvers.sedov import Sedov
+    out = []
+    for om in payload['omegas']:
+        try:
+            s = Sedov(geometry=3, gamma=1.524, rho0=1.337, eblast=1.184, omega=om)
+            out.append({'omega': om, 'ok': True, 'type': s.solution_type, 'special': s.special_singularity})
+        except Exception as ex:
+            out.append({'omega': om, 'ok': False, 'raised': type(ex).__name__, 'msg': str(ex)[:120]})
+    return out
+'''
+
+
+def replay_sedov_overflow():
+    """known finding sedov-overflow-next-to-omega3: admissible parameters next to (not on) the special exponent omega3 = j (2 - gamma)"""
+    r = H.run_real(SEDOV_OVF, {'omegas': [1.42, 1.429, 1.4295, 1.43]}, timeout=600)
+    bad = [x for x in r if not x['ok'] and x['raised'] != 'ValueError']
+    if bad:
+        return {'class': 'exactpack.solvers.sedov.Sedov', 'params': {'geometry': 3, 'gamma': 1.524, 'rho0': 1.337, 'eblast': 1.184}, 'omega3': 3 * (2 - 1.524), 'observed': r}
+    return None
+
+
 UNITS = [
     flow.Unit('constructor-guards', groups=['inits'], props=['props/C20_init.v'], custom_corr=init_corr, oracle=init_oracle),
     flow.Unit('definedness', groups=['noh', 'noh2', 'cog1', 'cog19'], props=['props/C20_defined.v']),
@@ -250,6 +273,10 @@ UNITS = [
                    'expressions; failing-input search: non-finite values of the real solvers at the class defaults)'),
     flow.Unit('documented-restrictions-real-code', groups=[], props=[], oracle=lambda rng, tier, reasons: __import__('restrict_oracle').oracle(rng, tier, reasons),
               always_oracle=True,
+              findings=[dict(id='sedov-overflow-next-to-omega3', refuted=None, pending=None, replay=replay_sedov_overflow,
+                             what='Sedov(geometry=3, gamma=1.524, omega=1.429) - an admissible density exponent 1e-3 above the special value omega3 = j (2 - gamma) = 1.428, '
+                                  'outside the 1e-4 window of the special branch - dies in the constructor with OverflowError (34, Numerical result out of range) inside the '
+                                  'energy integrand (exponent a4 ~ 1/(omega - omega3)); omega = 1.42 and 1.43 construct normally')],
               note='classes whose guards are outside the translated subset: Kenamond2 constructor against its documented restrictions (incl. the ordering of detonation '
                    'times with t_d[2] != 0), EP piston time-domain guard (raise iff the elastic wave has left the grid), NaN at t <= 0 for Sedov, Mader, Su-Olson'),
 ]
